@@ -77,6 +77,7 @@ class Obj:
         self.cls = cls          # RepoClass or None
         self.attrs = dict(attrs or {})
         self.attr_writes = []   # (name, lineno)
+        self.complete = False   # True once the real constructor has been executed on it: only then is a missing attribute an AttributeError
 
 
 class SymRange:
@@ -600,6 +601,9 @@ class Interp:
             return Builtin(name)
         if name in ("True", "False", "None"):
             return {"True": True, "False": False, "None": None}[name]
+        import builtins
+        if hasattr(builtins, name):
+            raise Unsupported("builtin %s is not modelled" % name)
         # NameError at run time
         raise PyException("NameError", "name %r is not defined" % name)
 
@@ -645,7 +649,17 @@ class Interp:
                     if any(isinstance(d, ast.Name) and d.id == "property" for d in fn.decorator_list):
                         return self.call_function(mod, qual, fn, [], {}, o)
                     return RepoFunc(mod, qual, bound_self=o)
-            raise PyException("AttributeError", "object has no attribute %s" % name)
+                ca = find_class_attr(o.cls, name)
+                if ca is not None:
+                    mod, node = ca
+                    if isinstance(node, (ast.List, ast.Dict, ast.Set, ast.ListComp, ast.DictComp, ast.SetComp, ast.Call)):
+                        raise Unsupported("class-level mutable attribute %s (one object shared by all instances) is not modelled" % name)
+                    return self.eval(node, Frame(mod, "<class>", {}))
+            if getattr(o, "complete", False):
+                raise PyException("AttributeError", "object has no attribute %s" % name)
+            # the object was set up by a contract (representation invariant), not by running the constructor: an attribute the
+            # contract does not know is outside the model, not an error of the code
+            raise Unsupported("attribute %s is not part of the contract's object model" % name)
         if isinstance(o, Arr):
             return npmodel.arr_attr(self, o, name)
         if is_scalar(o):
@@ -839,7 +853,7 @@ class Interp:
         if op == "Mult":
             return s_mul(a, b, c)
         if op == "Div":
-            if getattr(self, "in_try", 0) > 0 and is_z3(b) and z3.is_arith(b):
+            if getattr(self, "in_try", 0) > 0 and is_z3(b) and z3.is_arith(b) and not getattr(self, "numpy_scalars", False):
                 # inside try: a zero divisor raises ZeroDivisionError (python float semantics)
                 if self.ctx.branch(b == 0):
                     raise PyException("ZeroDivisionError", "division by zero")
@@ -987,6 +1001,7 @@ class Interp:
             if init is not None:
                 mod, qual, fn = init
                 self.call_function(mod, qual, fn, args, kwargs, o)
+            o.complete = True
             return o
         if isinstance(f, ExtRef):
             return npmodel.call_ext(self, f.dotted, args, kwargs)
@@ -1034,6 +1049,26 @@ class Frame:
 BUILTINS = {"range", "len", "int", "float", "abs", "round", "enumerate", "zip", "min", "max", "sum", "str", "bool",
             "isinstance", "type", "list", "tuple", "print", "complex", "reversed", "sorted", "any", "all", "divmod",
             "ValueError", "TypeError", "IndexError", "ZeroDivisionError", "Exception", "NotImplementedError", "object"}
+
+
+def find_class_attr(cls, name):
+    """(module, value node) of a class-level assignment `name = ...` on RepoClass or its same-module bases"""
+    mod = cls.mod
+    seen, stack = set(), [cls.name]
+    while stack:
+        c = stack.pop(0)
+        if c in seen or c not in mod.classes:
+            continue
+        seen.add(c)
+        for st in mod.classes[c].body:
+            if isinstance(st, ast.Assign) and any(isinstance(t, ast.Name) and t.id == name for t in st.targets):
+                return mod, st.value
+            if isinstance(st, ast.AnnAssign) and isinstance(st.target, ast.Name) and st.target.id == name and st.value is not None:
+                return mod, st.value
+        for b in mod.classes[c].bases:
+            if isinstance(b, ast.Name):
+                stack.append(b.id)
+    return None
 
 
 def find_method(cls, name):
